@@ -414,5 +414,33 @@ def count {α : Type} [ScoreNum α] (a : Alphabet) (ct : List α) (x : Nat) (wt 
     let nd ← a.ndegen[x]?
     countLoop row (div wt (ofNat nd)) a.K 0 ct
 
+open ScoreNum in
+/-- the accumulation loop of `esl_abc_Match`: `(prob, sx, sy)` -/
+def matchLoop {α : Type} [ScoreNum α] (rowx rowy : List Nat) (pf : Nat → Option α) :
+    Nat → Nat → α × α × α → Option (α × α × α)
+  | 0, _, acc => some acc
+  | k+1, i, (prob, sx, sy) => do
+    let fx ← rowx[i]?
+    let sx ← if fx ≠ 0 then (pf i).map (add sx) else some sx
+    let fy ← rowy[i]?
+    let sy ← if fy ≠ 0 then (pf i).map (add sy) else some sy
+    let prob ← if fx ≠ 0 ∧ fy ≠ 0 then (pf i).map (fun q => add prob (mul q q)) else some prob
+    matchLoop rowx rowy pf k (i+1) (prob, sx, sy)
+
+open ScoreNum in
+/-- `esl_abc_Match(abc, x, y, p)`; `p = none` is the NULL pointer (uniform background). The second guard of the C code
+    tests `x` twice (never `y`); mirrored. -/
+def matchProb {α : Type} [ScoreNum α] (a : Alphabet) (x y : Nat) (p : Option (List α)) : Option α :=
+  if a.xIsCanonical x && a.xIsCanonical y then some (if x = y then ofNat 1 else zero)
+  else if !a.xIsResidue x || !a.xIsResidue x then some zero
+  else do
+    let rowx ← a.degen[x]?
+    let rowy ← a.degen[y]?
+    let pf : Nat → Option α := match p with
+      | some pl => fun i => pl[i]?
+      | none => fun _ => some (div (ofNat 1) (ofNat a.K))
+    let (prob, sx, sy) ← matchLoop rowx rowy pf a.K 0 (zero, zero, zero)
+    some (div prob (mul sx sy))
+
 end Alphabet
 end EaselModel.Alphabet
